@@ -17,8 +17,9 @@ var profile = gen.Profile{
 	MinSteps: 4, MaxSteps: 26, Limits: []int{1, 2, 3, 4, 32, 32},
 	PNote: 55, PGate: 75, PInvalid: 6, PUnknown: 6, PBatch: 40, MaxBatch: 4,
 	PCancel: 5, PBurst: 40, PObey: 30, Builtins: true, Pins: true,
-	Outcomes: []string{"ok", "ok", "err:-32000", "ctxerr"},
-	Chans:    []string{"direct", "pipe"},
+	Outcomes:      []string{"ok", "ok", "err:-32000", "ctxerr"},
+	Chans:         []string{"direct", "pipe"},
+	PBaseDeadline: 0,
 }
 
 func genCase(t *rapid.T) sim.Scenario { return gen.ServerScenario(t, profile) }
